@@ -274,10 +274,14 @@ func makeIterator(value any) iterable {
 		return sliceWrapper(reflect.ValueOf(value))
 	case reflect.Map:
 		rv := reflect.ValueOf(value)
-		array := make([][]any, rv.Len())
-		for i, k := range values.SortedMapKeys(rv) {
+		array := make([][]any, 0, rv.Len())
+		for _, k := range values.SortedMapKeys(rv) {
 			v := rv.MapIndex(k)
-			array[i] = []any{k.Interface(), v.Interface()}
+			if !v.IsValid() {
+				// a NaN key equals no key, itself included: its entry cannot be looked up
+				continue
+			}
+			array = append(array, []any{k.Interface(), v.Interface()})
 		}
 		return sliceWrapper(reflect.ValueOf(array))
 	default:
